@@ -73,22 +73,23 @@ extern "C" void harness_geom_i_edges() {
   v_witness("geom int: vertex/vector");
 }
 
-// length: value_type(norm(vector)), norm = sqrt(sqrnorm) with the shared uninterpreted sqrt
+// length: value_type(norm(vector)), norm = sqrt(sqrnorm) with the shared uninterpreted sqrt.
+// Entities are enumerated and sharded, one per query (v_param(1) = halfedge index, or 2*nE + edge index for length(edge)):
+// with concrete handles both sides read the same position symbols, which keeps the 32-bit multiplier equivalence within
+// reach of the SAT back ends (the SMT back ends fail on mesh-level code).
 extern "C" void harness_geom_i_length() {
   MeshI m;
   if (!setup_i(m)) return;
-  if (S.nE == 0) { v_witness("geom int length: no edges"); return; }
-  // halfedges are enumerated here (not probed): with concrete handles both sides read the same position symbols,
-  // which keeps the multiplier equivalence within reach of the SAT back ends (SMT back ends fail on mesh-level code)
-  for (int he = 0; he < 2 * S.nE; ++he) {
-    if ((unsigned)he != v_param(1)) continue;          // sharded by halfedge (one multiplier equivalence per query)
-    int from = snap_he_from(S, he), to = snap_he_to(S, he);
-    int sq = 0;
-    for (int k = 0; k < 3; ++k) { int dk = wsub(PI[to][k], PI[from][k]); sq = wadd(sq, wmul(dk, dk)); }
-    int len = (int)std::sqrt((double)sq);
-    v_assert(m.length(HEH(he)) == len, "C19 length(halfedge) == (Scalar) sqrt(sqrnorm(vector(halfedge)))");
-    if ((he & 1) == 0) v_assert(m.length(EH(he >> 1)) == len, "C19 length(edge) == (Scalar) sqrt(sqrnorm(vector(edge)))");
-  }
+  int sel = (int)v_param(1);
+  if (sel >= 3 * S.nE) return;
+  bool is_edge = sel >= 2 * S.nE;
+  int he = is_edge ? 2 * (sel - 2 * S.nE) : sel;
+  int from = snap_he_from(S, he), to = snap_he_to(S, he);
+  int sq = 0;
+  for (int k = 0; k < 3; ++k) { int dk = wsub(PI[to][k], PI[from][k]); sq = wadd(sq, wmul(dk, dk)); }
+  int len = (int)std::sqrt((double)sq);
+  if (is_edge) v_assert(m.length(EH(he >> 1)) == len, "C19 length(edge) == (Scalar) sqrt(sqrnorm(vector(edge)))");
+  else v_assert(m.length(HEH(he)) == len, "C19 length(halfedge) == (Scalar) sqrt(sqrnorm(vector(halfedge)))");
   v_witness("geom int: length");
 }
 
@@ -114,21 +115,31 @@ extern "C" void harness_geom_i_bary() {
 
 // barycenter(edge) = midpoint.  Integer positions: where the exact midpoint is an integer vector it must be returned;
 // otherwise any of the two neighbouring integers is accepted (the documentation prescribes no rounding).
-// Positions are restricted to |x| < 2^30 so that no intermediate overflows.
+// Edge = v_param(1) (one query per edge); the positions of its two end vertices are free ints with |x| < 2^30 (no
+// intermediate overflows), the other vertices sit at (7,7,7).  (Only the end points are symbolic so that a counterexample
+// trace lists exactly the values the replay reads.)
 extern "C" void harness_geom_i_bary_edge() {
   MeshI m;
-  if (!setup_i(m)) return;
-  if (S.nE == 0) { v_witness("geom int bary edge: no edges"); return; }
-  int te = probe_below(S.nE);
-  int a = S.efrom[te], b = S.eto[te];
+  build_base(m, v_param(0));
+  take_snapshot(m, S);
+  int e = (int)v_param(1);
+  if (S.overflow || e >= S.nE) return;
+  int a = S.efrom[e], b = S.eto[e];
+  for (int v = 0; v < S.nV; ++v) {
+    for (int k = 0; k < 3; ++k) PI[v][k] = (v == a || v == b) ? v_nondet_int() : 7;
+    m.set_vertex(VH(v), V3i(PI[v][0], PI[v][1], PI[v][2]));
+  }
   for (int k = 0; k < 3; ++k) v_assume(PI[a][k] > -(1 << 30) && PI[a][k] < (1 << 30) && PI[b][k] > -(1 << 30) && PI[b][k] < (1 << 30));
-  V3i r = m.barycenter(EH(te));
+  V3i r = m.barycenter(EH(e));
+  bool exact_ok = true, near_ok = true;
   for (int k = 0; k < 3; ++k) {
     int s2 = PI[a][k] + PI[b][k];
-    if ((s2 & 1) == 0) v_assert(r[(size_t)k] == s2 / 2, "C19 barycenter(edge) == (position(from) + position(to)) / 2 where that midpoint is an integer");
+    if ((s2 & 1) == 0 && r[(size_t)k] != s2 / 2) exact_ok = false;
     int e2 = 2 * r[(size_t)k] - s2;
-    v_assert(e2 >= -1 && e2 <= 1, "C19 barycenter(edge) is within rounding (one of the two nearest integers) of the exact midpoint");
+    if (e2 < -1 || e2 > 1) near_ok = false;
   }
+  v_assert(exact_ok, "C19 barycenter(edge) == (position(from) + position(to)) / 2 in every component where that midpoint is an integer");
+  v_assert(near_ok, "C19 barycenter(edge) is within rounding (one of the two nearest integers) of the exact midpoint in every component");
   v_witness("geom int: edge barycenter");
 }
 
